@@ -13,7 +13,8 @@ EXPLANATION = (
     "inside a zone that is closed again on the success path; R3 build_header_nodes skips exactly the three zone "
     "markers, adds `end + 1 - i` to the skip count, converts every other node with the current skip count, and "
     "is_declaration is exactly the four declaration variants. Not decided: that no NodeId of a public node ever "
-    "refers into a private zone for every input (index values).")
+    "refers into a private zone for every input (index values)."
+    " ADDED LATER: R3-DECLARATIONS also: build_header tests every converted node (no hand-written index that jumps).")
 
 PT = "delta::parser::parse_tree::"
 PN = "delta::parser::parse_node::ParseNode"
